@@ -23,6 +23,9 @@ C={
 "C12":("model_checking","explicit enumeration of every call history (write*, end) up to a depth over a 10-chunk alphabet x configurations x faults, with a sink-protocol monitor automaton running on every execution of the real rewriter",
  "No call history of depth <= 5 (quick) / 7 (thorough) over the chunk alphabet, under 7 configurations, with/without end(), and with a fault at every handler index or one of 4 memory limits, violates the sink protocol (encoding first, exactly one zero-length chunk as the last call of a successful end(), silence after an error, panic on reuse, prefix property without graceful flags).",
  "The monitor is transcribed from the statement; histories beyond the depth and chunks outside the alphabet are not covered.","DESIGN.md §4 C12"),
+"C10":("fault_enumeration","exhaustive sweep of the memory limit (every value 0..M0+64) on the real rewriter for each growth input x chunking x preallocation, with the accounting hook as observation",
+ "For every growth case (unterminated tag/attribute/comment/doctype at 11-15 sizes, nesting depths up to 33/200 with selectors, 4 chunkings, 3 preallocation modes) and every F<=2 tag-soup input, under EVERY limit value from 0 to past the first success: no panic, only MemoryLimitExceeded errors, accounted usage <= M after every successful call, retained input <= M in pass-through, success monotone in M with identical output, repeated runs identical.",
+ "Uses the _verif_hooks accessor; the limit is the accounting limit (no allocator fault injection); preallocation swept only at values <= M.","DESIGN.md §4 C10"),
 "C01":("model_checking","bounded-exhaustive exploration of the real rewriter: all strings over two adversarial alphabets x observer configs x all 1-/2-cut, byte-wise and empty-write schedules; oracle = byte identity",
  "No execution of the real rewriter, over every string of the fragment alphabet (len<=3 quick/<=4 thorough) and byte alphabet (len<=4/<=6), every observer handler set of a 16-entry menu, strict on/off, 4 encodings and every listed schedule, emits anything but the input (or a prefix on a strict-mode ambiguity error).",
  "Coverage statement inside the stated alphabets/bounds only; the round-trip exception is decided by encoding_rs.","DESIGN.md §4 C01"),
